@@ -395,16 +395,16 @@ def _first_diff(e, o, path='$'):
 # --------------------------------------------------------------------------
 # generation
 
-def _leaf_grid(tier):
+def _leaf_grid(tier, salt0=0):
   dts = list(WIDTH)
-  shapes = SHAPES if tier != 'quick' else SHAPES
+  shapes = SHAPES
   for dt in dts:
     for order in ('native', 'swapped'):
       if order == 'swapped' and (WIDTH[dt] == 1 or dt == 'bfloat16'):
         continue
       for layout in LAYOUTS:
         for si, shape in enumerate(shapes):
-          yield arr_spec(dt, order, layout, shape, salt=si)
+          yield arr_spec(dt, order, layout, shape, salt=si + salt0)
 
 
 def _obj_leaves():
@@ -538,8 +538,10 @@ def _state_spec(rng, jaxy=True):
 
 
 def generate(tier, rng):
-  n_rand = {'quick': 150, 'thorough': 1200, 'search': 600}[tier]
+  n_rand = {'quick': 150, 'thorough': 3000, 'search': 600}[tier]
   leaves = list(_leaf_grid(tier))
+  if tier == 'thorough':
+    leaves += list(_leaf_grid(tier, 7)) + list(_leaf_grid(tier, 13))
   for s in leaves:
     yield {'kind': 'tree', 'tree': s}
   objs, unsup, scal, jaxl = list(_obj_leaves()), list(_unsupported_leaves()), list(_scalar_leaves()), list(_jax_leaves())
